@@ -295,6 +295,8 @@ func TestVerif_C56(t *testing.T) {
 	r.Rule("every N in 0..400 and N in {1000, 5000} (thorough: + 100000) x 7 key patterns (distinct, equal, pairs, interleaved copies, same bloom bit, every bloom bit, same bloom bit with duplicates) x 10 preallocation variants; the real indexMap is compared with a map[ID][]entry model (thorough: additionally full comparison after every insertion that follows a preallocation for N <= 400; both tiers: full comparison for every not yet seen canonical state, growth, preallocation and run end, inserted key otherwise); state = (pattern, insertions so far, bucket count, HAT block size); non-trivial = a checked state in which some key has >= 2 entries or the table has grown (buckets > 64 or HAT block size > 4)")
 	r.Assume("maphash bucket placement is seeded randomly per map and cannot be fixed; chains are forced by load, not by chosen collisions")
 
+	verifC56Identical(r)
+
 	var ns []int
 	for n := 0; n <= 400; n++ {
 		ns = append(ns, n)
@@ -434,5 +436,75 @@ func verifC56Run(r *vh.Run, ck, pattern string, v verifC56Variant, n int, shapes
 	r.Outcome(fmt.Sprintf("buckets=%d/block=%d", len(m.buckets), m.blockList.blockSize))
 	if n == 300 && v.name == "prealloc(4N)@half" {
 		r.Sample(map[string]any{"pattern": pattern, "variant": v.name, "N": n, "distinct_keys": len(mo.order), "buckets": len(m.buckets), "hat_block_size": m.blockList.blockSize, "len": m.len()})
+	}
+}
+
+// verifC56Identical: entries that are equal in every field (the same blob listed twice at the same place
+// of the same pack, as two index files written by an interrupted repack may do), and entries that differ in
+// the uncompressed length only.  A multimap keeps each insertion: len(), values() and valuesWithID count them.
+func verifC56Identical(r *vh.Run) {
+	for _, mode := range []string{"identical", "ul-differs"} {
+		for _, n := range []int{1, 2, 3, 4, 5, 8, 16, 17, 64, 65, 300} {
+			for _, copies := range []int{2, 3, 8} {
+				ck := fmt.Sprintf("identical|%s|n=%d|copies=%d", mode, n, copies)
+				if !r.Case(ck) {
+					continue
+				}
+				var m indexMap
+				want := map[restic.ID]int{}
+				total := 0
+				bad := ""
+				panicked, pmsg := vh.NoPanic(func() {
+					for round := 0; round < copies; round++ {
+						// all keys once per round: the copies of one key are n insertions apart (across table growth)
+						for k := 0; k < n; k++ {
+							id := verifC56Hash("ident", k)
+							ul := uint32(k + 100)
+							if mode == "ul-differs" {
+								ul += uint32(round)
+							}
+							m.add(id, uint32(k%7), uint32(k*11+1), uint32(k+3), ul)
+							want[id]++
+							total++
+						}
+					}
+					if int(m.len()) != total {
+						bad = fmt.Sprintf("len() = %d after %d insertions", m.len(), total)
+						return
+					}
+					cnt := 0
+					for range m.values() {
+						cnt++
+					}
+					if cnt != total {
+						bad = fmt.Sprintf("values() yielded %d entries after %d insertions", cnt, total)
+						return
+					}
+					for id, w := range want {
+						g := 0
+						for e := range m.valuesWithID(id) {
+							if e.id != id {
+								bad = fmt.Sprintf("valuesWithID(%s) yielded an entry of key %s", id.Str(), e.id.Str())
+								return
+							}
+							g++
+						}
+						if g != w {
+							bad = fmt.Sprintf("valuesWithID(%s) yielded %d entries, %d were inserted (equal in pack, offset and length)", id.Str(), g, w)
+							return
+						}
+					}
+				})
+				r.Eval(1)
+				r.Transition(int64(total))
+				r.NontrivialByConstruction(1)
+				switch {
+				case panicked:
+					r.Violation(ck, "C56|identical|"+mode+"|panic", "indexMap panicked: "+pmsg, nil)
+				case bad != "":
+					r.Violation(ck, "C56|identical|"+mode, fmt.Sprintf("%d keys x %d copies: %s", n, copies, bad), nil)
+				}
+			}
+		}
 	}
 }
